@@ -55,3 +55,7 @@ Lemma src_rating_monotone_cert : forall name cat hs hs' cs cs', rsa_cert_type na
   0 < hs -> hs <= hs' -> 0 < cs -> cs <= cs' ->
   severity (src_hostkey_notes name true hs' cat cs') <= severity (src_hostkey_notes name true hs cat cs).
 Proof. intros. rewrite <- !tie_hostkey_notes. apply rating_monotone_cert; assumption. Qed.
+
+(* the translator found the source shape it extracts hostkey_probe_constants from (otherwise gen/Tables.v carries fallback values and this lemma fails) *)
+Lemma tie_extract_ok_hostkey_probe_constants : extract_ok_hostkey_probe_constants = true.
+Proof. reflexivity. Qed.
